@@ -109,6 +109,13 @@ def find_cause_pep484585_container_args_1(
         # tensors containing one or more values: e.g.,
         #     RuntimeError: Boolean value of Tensor with more than one value is
         #     ambiguous
+        #
+        # Note also that this test is intentionally preceded by a test that
+        # this container is a collection. Quasi-iterable hints (e.g.,
+        # "Iterable[...]") are satisfied by iterables that are *NOT*
+        # collections (e.g., generators), which are neither sized nor safely
+        # reiterable and thus *CANNOT* be passed to the len() builtin.
+        not isinstance(cause.pith, Collection) or
         not len(cause.pith) or
         # This child hint is ignorable...
         hint_child_sane is HINT_SANE_IGNORABLE
